@@ -60,3 +60,9 @@ reg('C09', 'runtime monitoring: metamorphic respelling monitor (IR equality + re
     'equal selector structure and the same elements on two probe documents. ~2.5*10^5 effective respellings per quick run.',
     'Trusted: the respeller stays inside the rewrite rules the statement lists (domain decisions in DESIGN.md section 3: '
     'literal :-- prefix of custom names, no lone-CR escape terminator, escapes not applied to An+B keywords/of/ltr/rtl/flags).')
+reg('C10', 'runtime monitoring: round-trip oracle through API-built elements, exhaustive over code points (thorough)',
+    'For every tried string the real escape() output is fed back to the real parser in five selector forms and must '
+    'select exactly the API-built target element among decoys that differ in one character, case, prefix or escaping; '
+    'quick: every code point U+0000-U+2FFF, surrogates, plane boundaries and samples in four positions; thorough: every '
+    'code point U+0000-U+10FFFF; plus random hostile strings.',
+    'Trusted: bs4 stores arbitrary strings as id/class/attribute values unchanged; NUL maps to U+FFFD as the statement says.')
